@@ -162,6 +162,24 @@ struct Scenario {
 				}
 				ctx.transition(8);
 			}
+			if (k >= 2) {
+				// all member streams alive at once, read alternately in small steps
+				std::vector<std::unique_ptr<Stream::BidirectionalReader>> st;
+				std::vector<std::vector<uint8_t>> got(k);
+				for (std::size_t i = 0; i < k; ++i) st.push_back(v.OpenStream(i));
+				bool more = true;
+				while (more) {
+					more = false;
+					for (std::size_t i = k; i-- > 0;) {
+						uint8_t buf[4096];
+						std::size_t n = st[i]->ReadPartial(buf, st[i]->Length() > 64 ? 4096 : 1 + i % 3);
+						got[i].insert(got[i].end(), buf, buf + n);
+						if (n) more = true;
+					}
+				}
+				for (std::size_t i = 0; i < k; ++i) if (got[i] != contentOf(*byName[names[i]])) { bad("interleaved-stream-bytes", s, names[i]); ok = false; return; }
+				ctx.count("streams/interleaved");
+			}
 			ctx.count("interrogations");
 		});
 		if (o.cls != 'R') { bad("reopen-or-extract-throws", s, o.what); return false; }
